@@ -42,7 +42,19 @@ def run(ctx):
     ok = kws == {"call_hash": "call_hash", "task_name": "task_name", "task_hash": "task_hash", "args_hash": "args_hash", "value_hash": "result_hash"}
     r1.check(ok, f"{db.rel}:RedunBackendDb.record_call_node:row", f"the CallNode row is not built from the hashed parameters ({kws})", db.rel, rc.lineno)
     ce = [c for c in calls_in(rc) if call_name(c) == "CallEdge"]
-    ok = len(ce) == 1 and {k.arg: src(k.value) for k in ce[0].keywords} == {"parent_id": "call_hash", "child_id": "child_call_hash", "call_order": "i"} and "enumerate(child_call_hashes)" in src(rc)
+    # the edges are built from the hashed child list: the sequence enumerated for the edges is child_call_hashes itself or a filtered copy of it
+    # (`[h for h in child_call_hashes if ...]`), never another source
+    ok = len(ce) == 1 and {k.arg: src(k.value) for k in ce[0].keywords} == {"parent_id": "call_hash", "child_id": "child_call_hash", "call_order": "i"}
+    if ok:
+        lp = db.parent.get(ce[0])
+        while lp is not None and not isinstance(lp, ast.For):
+            lp = db.parent.get(lp)
+        seq = lp.iter.args[0] if lp is not None and isinstance(lp.iter, ast.Call) and call_name(lp.iter) == "enumerate" and lp.iter.args else None
+        from_children = seq is not None and src(seq) == "child_call_hashes"
+        if seq is not None and isinstance(seq, ast.Name) and not from_children:
+            defs = [a for a in ast.walk(rc) if isinstance(a, ast.Assign) and src(a.targets[0]) == seq.id]
+            from_children = len(defs) == 1 and isinstance(defs[0].value, ast.ListComp) and src(defs[0].value.generators[0].iter) == "child_call_hashes" and src(defs[0].value.elt) == src(defs[0].value.generators[0].target)
+        ok = from_children
     r1.check(ok, f"{db.rel}:RedunBackendDb.record_call_node:edges", "child edges do not enumerate child_call_hashes with the parent's call_hash", db.rel, rc.lineno)
     hf = hm.func("hash_call_node")
     ok = any(isinstance(r, ast.Return) and src(r.value) == "hash_struct(['CallNode', task_hash, args_hash, result_hash, sorted(child_call_hashes)])" for r in ast.walk(hf))
